@@ -7,6 +7,7 @@ recognised effects contradict the rule, in a closed world where every operation 
 the child links) has been recognised and classified.  A shape that is merely not recognised raises dtable.Undecidable."""
 import collections
 import copy
+import os
 
 from engine import ir, dtable, match, cfg as cfgm, normalize
 from engine.ir import kids, strip_casts, const_int, ref_of
@@ -189,6 +190,64 @@ class _Siblings(normalize.Rewriter):
             return None
         return cal
 
+    def as_flag(self, call, cal, did, name):
+        """the statements of the bool-returning sibling `cal` called by `call`, every return turned into an assignment to the
+        bool local `did` -> (statements, constructor of a reference to the local)"""
+        pro, subst, rename = self.bind(cal, call)
+        line = call.get("l")
+
+        def flag():
+            return {"k": "DeclRefExpr", "id": self.fresh(), "ty": "bool", "lv": True, "l": line, "ref": {"id": did, "name": name, "kind": "local"}}
+
+        def on_return(e):
+            if e is None:
+                raise normalize.Fail("return without a value")
+            return [{"k": "BinaryOperator", "op": "=", "id": self.fresh(), "ty": "bool", "lv": True, "l": e.get("l"), "ch": [flag(), e]}]
+        body = [self.simplify(self.clone(x, subst, rename)) for x in kids(cal.body)]
+        return pro + self.deret(body, on_return), flag
+
+    def expand_stmt(self, s):
+        """if (sibling(args)) / if (!sibling(args)) / bool v = sibling(args): the bool-returning sibling is executed first, each
+        of its returns becomes an assignment to a flag that the condition then reads (the engine itself only inlines helpers
+        that end in one return)"""
+        if s is not None and s["k"] == "IfStmt" and "init" not in s and "condvar" not in s and kids(s) and kids(s)[0] is not None:
+            holder, n = s, kids(s)[0]
+            while n is not None and kids(n) and (n["k"] in CASTS or n["k"] in WRAP or (n["k"] == "UnaryOperator" and n.get("op") == "!")):
+                holder, n = n, kids(n)[0]
+            cal = self.novel_callee(n) if n is not None and "callee" in n and (n.get("ty") or "") == "bool" else None
+            if cal is not None:
+                try:
+                    did = self.next_did
+                    self.next_did -= 1
+                    name = "%s_result" % cal.name
+                    stmts, flag = self.as_flag(n, cal, did, name)
+                    var = {"k": "VarDecl", "id": self.fresh(), "did": did, "name": name, "ty": "bool", "l": n.get("l"), "ch": []}
+                    decl = {"k": "DeclStmt", "id": self.fresh(), "l": n.get("l"), "ch": [var]}
+                    holder["ch"] = [flag()] + list(holder["ch"][1:])
+                    self.changed = True
+                    return self.expand_list([decl] + stmts + [s])
+                except normalize.Fail:
+                    pass
+        if s is not None and s["k"] == "DeclStmt" and len(kids(s)) == 1 and kids(s)[0]["k"] == "VarDecl" and kids(kids(s)[0]) \
+                and (kids(s)[0].get("ty") or "").replace("const ", "") == "bool":
+            v = kids(s)[0]
+            n = kids(v)[0]
+            while n is not None and kids(n) and (n["k"] in CASTS or n["k"] in WRAP):
+                n = kids(n)[0]
+            cal = self.novel_callee(n) if n is not None and "callee" in n and (n.get("ty") or "") == "bool" else None
+            if cal is not None and any(self.has_return(x) for x in kids(cal.body)[:-1]):
+                try:
+                    stmts, flag = self.as_flag(n, cal, v["did"], v.get("name"))
+                    var = dict(v)
+                    var["ch"], var["ty"] = [], "bool"
+                    decl = dict(s)
+                    decl["ch"] = [var]
+                    self.changed = True
+                    return self.expand_list([decl] + stmts)
+                except normalize.Fail:
+                    pass
+        return normalize.Rewriter.expand_stmt(self, s)
+
 
 def with_siblings_inlined(fn):
     if not any(is_sibling_call(y) and not y["callee"].get("const") for y in ir.walk(fn.body)):
@@ -239,6 +298,8 @@ def lru_events(fn, lf):
         e = peel(e)
         if e is None:
             return "?"
+        if "callee" in e and e["k"] == "CallExpr" and e["callee"]["name"] in ("move", "forward", "as_const") and len(kids(e)) == 1:
+            return role_of(kids(e)[0])          # an iterator is copied by a move
         oc = obj_call(e)
         if oc:
             f, name, c = oc
@@ -479,6 +540,8 @@ def pop_roles(fn, lf):
         e = peel(e)
         if e is None:
             return "?"
+        if "callee" in e and e["k"] == "CallExpr" and e["callee"]["name"] in ("move", "forward", "as_const") and len(kids(e)) == 1:
+            return role(kids(e)[0])             # an iterator is copied by a move
         if lcall(e, ("end", "cend")):
             return "end"
         if lcall(e, ("begin", "cbegin")):
@@ -569,6 +632,359 @@ def pop_roles(fn, lf):
     return removed, read
 
 
+MAP_KEYED = ("find", "erase", "at", "operator[]", "count", "contains", "insert", "emplace", "insert_or_assign", "emplace_hint", "try_emplace", "equal_range", "bucket")
+LIST_KEYED = ("erase", "splice", "insert", "emplace")
+# calls that take their arguments by forwarding / rvalue reference and build or store an object from them
+MOVE_SINKS = ("push_front", "push_back", "emplace_front", "emplace_back", "insert", "emplace", "insert_or_assign", "emplace_hint", "try_emplace", "operator[]",
+              "make_pair", "make_tuple", "assign", "swap")
+MOVE_NO_SINKS = ("find", "erase", "at", "count", "contains", "equal_range", "bucket", "forward_as_tuple", "tie", "addressof", "as_const")
+
+
+def moved_from_reads(fn, lf):
+    """the keys / iterators handed to an operation of list_ / map_ that are read from an object which was moved from earlier on
+    the path: `T out = std::move(*last); map_.erase(last->first);` - for a key type whose move empties the source the index is
+    then worked on with an empty key.
+    Objects are access paths (root, field, ...); a root is a value local or the list node an iterator value designates
+    (iterator locals carry a value id that changes when they are written; end()/--end()/back() are named by role).  A move is
+    std::move(x) consumed by a construction, an assignment or a storing call; moving a const object copies.  Evidence is a
+    move of path M followed by a read of a path inside M in such an argument (also through a reference alias or a copy taken
+    after the move).  A moved-from object that may have been given a new value, a move whose object or consumer is not
+    understood followed by a read that may concern it: Undecidable.
+    -> [(operation, printed read, line of the read, printed moved object, line of the move)]"""
+    def und(what):
+        raise dtable.Undecidable("%s: %s" % (fn.loc, what))
+
+    if not any("callee" in y and y["callee"]["name"] in ("move", "forward", "move_if_noexcept")
+               for _, root, _ in path_roots(lf) for y in ir.walk(root)):
+        return []
+    findings = []
+    itval, alias = {}, {}
+    moved, maybe = {}, {}         # path -> (printed object, line)
+    st = {"epoch": 0, "nmut": 0, "n": 0, "unknown": None}
+    pending = {}                  # id(consumer node) -> [(path, printed, line, definite)]
+
+    def fresh(d):
+        st["n"] += 1
+        return ("v", d, st["n"])
+
+    def is_iter_ty(ty):
+        ty = (ty or "").replace("const", "").strip()
+        return "iterator" in ty.lower() or ty.endswith("*")
+
+    def unwrap(e):
+        e = strip_casts(e)
+        while e is not None and kids(e) and e["k"] in WRAP:
+            e = strip_casts(kids(e)[0])
+        return e
+
+    def fwd_arg(e):
+        """x of std::move(x) / std::forward<T>(x) / std::as_const(x)"""
+        if e is not None and "callee" in e and not e.get("member_call") and e["k"] == "CallExpr" \
+                and e["callee"]["name"] in ("move", "forward", "move_if_noexcept", "as_const"):
+            args = [a for a in kids(e) if a is not None and a["k"] != "DefaultArg"]
+            if len(args) == 1:
+                return args[0]
+        return None
+
+    def itv(e):
+        """value id of an iterator / pointer expression, None if not understood"""
+        e = unwrap(e)
+        if e is None:
+            return None
+        if fwd_arg(e) is not None:
+            return itv(fwd_arg(e))
+        if e["k"] in ("CXXConstructExpr", "CXXTemporaryObjectExpr") and len(kids(e)) == 1:
+            return itv(kids(e)[0])
+        d = ref_of(e)
+        if d is not None:
+            if d in alias:
+                return ("at",) + alias[d] if alias[d] else None
+            return itval.get(d, ("v0", d))
+        oc = obj_call(e)
+        if oc:
+            f, name, c = oc
+            args = [a for a in kids(c)[1:] if a is not None and a["k"] != "DefaultArg"]
+            if f == "list_" and name in ("end", "cend") and not args:
+                return ("end",)
+            if f == "list_" and name in ("begin", "cbegin") and not args:
+                return ("begin", st["epoch"])
+            if f == "map_" and name == "find" and len(args) == 1:
+                return ("find", dtable.describe(strip_casts(args[0])), st["nmut"])
+            return None
+        if "callee" in e and e["callee"]["name"] == "prev" and not e.get("member_call"):
+            args = [a for a in kids(e) if a is not None and a["k"] != "DefaultArg"]
+            if (len(args) == 1 or (len(args) == 2 and const_int(args[1]) == 1)) and itv(args[0]) == ("end",):
+                return ("last", st["epoch"])
+            return None
+        u = match.unop(e, ("--", "++"))
+        if u and not u[2] and ref_of(u[1]) is not None:
+            return itv(u[1])        # the local has been written when its operand was evaluated
+        if u and u[0] == "--" and not u[2] and itv(u[1]) == ("end",):
+            return ("last", st["epoch"])
+        if u:
+            return None
+        p = path(e)
+        return ("at",) + p if p else None
+
+    def path(e):
+        """access path of the object an expression designates, None if not understood"""
+        e = unwrap(e)
+        if e is None:
+            return None
+        if fwd_arg(e) is not None:
+            return path(fwd_arg(e))
+        if e["k"] == "DeclRefExpr":
+            d = e["ref"]["id"]
+            if d in alias:
+                return alias[d]
+            if is_iter_ty(e.get("ty")):
+                return None
+            return (("var", d),)
+        if e["k"] == "MemberExpr" and kids(e):
+            if match.this_field(e):
+                return None
+            b = kids(e)[0]
+            if e.get("arrow"):
+                b0 = unwrap(b)
+                if b0 is not None and "callee" in b0 and b0.get("op") == "->" and kids(b0):
+                    b0 = kids(b0)[0]
+                v = itv(b0)
+                return (("node", v), e["member"]) if v else None
+            p = path(b)
+            return p + (e["member"],) if p else None
+        d_ = match.deref_of(e)
+        if d_ is not None:
+            v = itv(d_)
+            return (("node", v),) if v else None
+        oc = obj_call(e)
+        if oc and oc[0] == "list_" and oc[1] in ("back", "front") and len([a for a in kids(e)[1:] if a is not None]) == 0:
+            return (("node", ("last" if oc[1] == "back" else "begin", st["epoch"])),)
+        return None
+
+    def related(p, q):
+        n = min(len(p), len(q))
+        return p[:n] == q[:n]
+
+    def show(e):
+        e = unwrap(e)
+        if e is None:
+            return "?"
+        if fwd_arg(e) is not None:
+            return show(fwd_arg(e))
+        if e["k"] == "MemberExpr" and kids(e) and not match.this_field(e):
+            b0 = unwrap(kids(e)[0])
+            if e.get("arrow") and b0 is not None and "callee" in b0 and b0.get("op") == "->" and kids(b0):
+                b0 = kids(b0)[0]
+            return show(b0) + ("->" if e.get("arrow") else ".") + e["member"]
+        if match.deref_of(e) is not None:
+            return "*" + show(match.deref_of(e))
+        return dtable.describe(e)
+
+    def check_reads(arg, what):
+        def rec(z):
+            if z is None or z["k"] == "LambdaExpr":
+                return
+            p = path(z)
+            z0 = unwrap(z)
+            if p is None:
+                if st["unknown"] is not None and z0 is not None and (z0.get("arrow") or match.deref_of(z0) is not None or
+                                                                     (z0["k"] == "DeclRefExpr" and z0["ref"]["id"] in alias)):
+                    und("%s: whether %s (line %s) reads the object moved from at line %s is not understood" % (what, show(z), z.get("l"), st["unknown"]))
+                for c in kids(z):
+                    rec(c)
+                return
+            for m, (txt, line) in moved.items():
+                if p[:len(m)] == m:
+                    findings.append((what, show(z), z.get("l"), txt, line))
+                    return
+                if m[:len(p)] == p:
+                    und("%s reads %s (line %s), a part of which was moved from at line %s" % (what, show(z), z.get("l"), line))
+            for m, (txt, line) in maybe.items():
+                if related(p, m):
+                    und("%s reads %s (line %s); whether it still is the object moved from at line %s (%s) is not understood" % (what, show(z), z.get("l"), line, txt))
+        rec(arg)
+
+    def revalidate(p):
+        """the object at path p receives a new value"""
+        for m in list(moved):
+            if m[:len(p)] == p:
+                del moved[m]
+            elif p[:len(m)] == m:
+                maybe[m] = moved.pop(m)
+        for m in list(maybe):
+            if m[:len(p)] == p:
+                del maybe[m]
+
+    def unsure(p):
+        for m in list(moved):
+            if related(p, m):
+                maybe[m] = moved.pop(m)
+
+    def write_iter(d, value=None):
+        itval[d] = value if value is not None else fresh(d)
+
+    def handle(n, par):
+        """n has been evaluated (its operands before it); par: the expression that consumes its value"""
+        oc = obj_call(n)
+        if oc:
+            f, name, c = oc
+            args = [a for a in kids(c)[1:] if a is not None and a["k"] != "DefaultArg"]
+            if name in (LIST_KEYED if f == "list_" else MAP_KEYED):
+                for a in args:
+                    check_reads(a, "%s.%s" % (f, name))
+        # moves consumed by this node take effect now
+        for p, txt, line, definite in pending.pop(id(n), []):
+            if p is None:
+                st["unknown"] = line
+            elif definite:
+                moved[p] = (txt, line)
+                maybe.pop(p, None)
+            else:
+                maybe[p] = (txt, line)
+        if oc:
+            f, name = oc[0], oc[1]
+            if name not in (LIST_PURE if f == "list_" else MAP_PURE + ("find", "at")):
+                st["nmut"] += 1
+                if f == "list_":
+                    st["epoch"] += 1
+            return
+        x = fwd_arg(n)
+        if x is not None and n["callee"]["name"] != "as_const":
+            ty = (strip_casts(x).get("ty") or "")
+            if ty.startswith("const ") or ty.rstrip().endswith(" const") or is_iter_ty(ty):
+                return          # copies
+            p = path(x)
+            definite = n["callee"]["name"] == "move"
+            if par is None:
+                return          # value not used (statement / returned)
+            if par["k"] == "VarDecl":
+                if (par.get("ty") or "").rstrip().endswith("&"):
+                    return      # T&& r = std::move(x): an alias
+                pending.setdefault(id(par), []).append((p, show(x), n.get("l"), definite))
+                return
+            b = match.binop(par, ASSIGN_OPS)
+            if par["k"] in ("CXXConstructExpr", "CXXTemporaryObjectExpr") or (b and unwrap(b[2]) is n):
+                pending.setdefault(id(par), []).append((p, show(x), n.get("l"), definite))
+                return
+            if "callee" in par:
+                nm = par["callee"]["name"]
+                if nm in MOVE_NO_SINKS or fwd_arg(par) is not None:      # std::move(std::move(x)) is decided at the outer one
+                    return
+                pending.setdefault(id(par), []).append((p, show(x), n.get("l"), definite and nm in MOVE_SINKS))
+                return
+            if par["k"] in ("ReturnStmt", "CXXThrowExpr"):
+                return
+            pending.setdefault(id(par), []).append((p, show(x), n.get("l"), False))
+            return
+        # writes
+        u = match.unop(n, ("++", "--"))
+        if u:
+            d = ref_of(u[1])
+            if d is not None and (d in itval or is_iter_ty(strip_casts(u[1]).get("ty"))):
+                write_iter(d, ("last", st["epoch"]) if (u[0] == "--" and itval.get(d) == ("end",)) else None)
+            else:
+                p = path(u[1])
+                if p:
+                    unsure(p)
+            return
+        b = match.binop(n, ASSIGN_OPS) if n["k"] in ("BinaryOperator", "CompoundAssignOperator", "CXXOperatorCallExpr") else None
+        if b:
+            d = ref_of(b[1])
+            if d is not None and d not in alias and (d in itval or is_iter_ty(strip_casts(b[1]).get("ty"))):
+                write_iter(d, itv(b[2]) if b[0] == "=" else None)
+                return
+            p = path(b[1])
+            if p:
+                if b[0] == "=":
+                    src = path(b[2]) if fwd_arg(unwrap(b[2])) is None else None
+                    revalidate(p)
+                    if src is not None and any(src[:len(m)] == m for m in moved):       # a copy of a moved-from object
+                        moved[p] = ("%s (of which %s is a copy taken afterwards)" % (show(b[2]), show(b[1])), n.get("l"))
+                else:
+                    unsure(p)
+            elif moved and (st["unknown"] is None):
+                lhs = unwrap(b[1])
+                if lhs is not None and (lhs.get("arrow") or match.deref_of(lhs) is not None):
+                    for m in list(moved):
+                        if m[0][0] == "node":
+                            maybe[m] = moved.pop(m)
+            return
+        if "callee" in n and n["k"] not in ("CXXConstructExpr", "CXXTemporaryObjectExpr") and n["callee"]["name"] not in VALUE_CALLS:
+            # an object handed to / worked on by something that may give it a new value
+            args = kids(n)
+            for i, a in enumerate(args):
+                if a is None:
+                    continue
+                a0 = unwrap(a)
+                if i == 0 and (n.get("member_call") or n["k"] == "CXXOperatorCallExpr"):
+                    if n["callee"].get("const") or (n["k"] == "CXXOperatorCallExpr" and n.get("op") in ("->", "*", "==", "!=", "<", "()", "[]")):
+                        continue
+                elif ("const" in (a.get("ty") or "") or "const" in (a0.get("ty") or "")) and a0["k"] != "UnaryOperator":
+                    continue
+                d = ref_of(a0)
+                if d is not None and d in itval:
+                    write_iter(d)
+                    continue
+                tgt = kids(a0)[0] if a0["k"] == "UnaryOperator" and a0.get("op") == "&" and kids(a0) else a0
+                p = path(tgt)
+                if p:
+                    unsure(p)
+
+    def visit(n, par):
+        if n is None or n["k"] == "LambdaExpr":
+            return
+        nxt = par if (n["k"] in CASTS or n["k"] in WRAP) else n
+        for c in kids(n):
+            visit(c, nxt)
+        if n["k"] not in CASTS and n["k"] not in WRAP:
+            handle(n, par)
+
+    for kind, root, v in path_roots(lf):
+        if kind == "loop":
+            if any("callee" in y and y["callee"]["name"] in ("move", "forward", "move_if_noexcept") for y in ir.walk(root)):
+                und("objects are moved inside a loop (line %s)" % root.get("l"))
+            for y in ir.walk(root):
+                w = match.unop(y, ("++", "--")) or (match.binop(y, ASSIGN_OPS) if y["k"] in ("BinaryOperator", "CompoundAssignOperator", "CXXOperatorCallExpr") else None)
+                r = normalize.lvalue_root(w[1]) if w else None
+                if isinstance(r, int):
+                    if r in itval or ref_of(w[1]) == r and is_iter_ty(strip_casts(w[1]).get("ty")):
+                        write_iter(r)
+                    unsure((("var", r),))
+            continue
+        if kind == "decl":
+            visit(root, v)
+            d = v["did"]
+            ty = (v.get("ty") or "").rstrip()
+            if ty.endswith("&"):
+                alias[d] = path(root)
+            elif is_iter_ty(ty):
+                write_iter(d, itv(root))
+            else:
+                revalidate((("var", d),))
+                core = unwrap(root)
+                while core is not None and core["k"] in ("CXXConstructExpr", "CXXTemporaryObjectExpr") and len(kids(core)) == 1:
+                    core = unwrap(kids(core)[0])
+                src = path(core) if core is not None and fwd_arg(core) is None else None
+                if src is not None:
+                    for m, (txt, line) in moved.items():
+                        if src[:len(m)] == m:
+                            moved[(("var", d),)] = ("%s (of which %s is a copy taken afterwards)" % (txt, v.get("name")), line)
+                            break
+                    else:
+                        if any(related(src, m) for m in maybe):
+                            maybe[(("var", d),)] = (v.get("name"), v.get("l"))
+                elif core is not None and fwd_arg(core) is None and (moved or maybe):
+                    for z in ir.walk(root):
+                        pz = path(z)
+                        if pz and any(related(pz, m) for m in list(moved) + list(maybe)):
+                            maybe[(("var", d),)] = (v.get("name"), v.get("l"))
+                            break
+            handle(v, None)         # a move that initialises the variable takes effect after the initialiser
+        else:
+            visit(root, {"k": "ReturnStmt"} if kind == "ret" else None)
+    return findings
+
+
 def lru_atomize(fn):
     """atoms: `found` = the lookup of the key parameter hit (it != map_.end(), map_.count(key), ...); `already-front` = the found
     node is list_.begin(); size()/empty() tests are auxiliary atoms"""
@@ -626,12 +1042,69 @@ def lru_atomize(fn):
         def fill_level(e):
             c = match.call_named(peel(e), ("size", "empty"))
             return c is not None and "callee" in peel(e) and not [a for a in kids(c)[1:] if a is not None]
+        ft = fill_test(n, run)
+        if ft is not None:
+            return ft
         if fill_level(n):
             return ("aux:" + dtable.describe(n), False)
         b = match.binop(n, ("==", "!=", ">", "<", ">=", "<="))
         if b and ((fill_level(b[1]) and const_int(b[2]) is not None) or (fill_level(b[2]) and const_int(b[1]) is not None)):
             return ("aux:" + dtable.describe(strip_casts(n)), False)
         return None
+
+    def cache_fill(e, depth=0):
+        """`size` / `empty` if e is the number of entries of this cache / the test for none: list_.size(), map_.size(), size() -
+        the recency list and the index hold one element per entry (the invariant LRU-COUPLED maintains)"""
+        e = peel(e)
+        oc = obj_call(e)
+        if oc and oc[1] in ("size", "empty") and oc[2].get("member_call") and not [a for a in kids(oc[2])[1:] if a is not None]:
+            return oc[1]
+        if is_sibling_call(e) and e["callee"].get("const") and e["callee"]["name"] in ("size", "empty") and depth < 2:
+            sub = dtable.inline_call(fn, e)
+            return cache_fill(sub, depth + 1) if sub is not None else None
+        return None
+
+    def at_entry(run):
+        """no operation that changes the list / the map has been executed on the path so far"""
+        for ev in run.events:
+            root = ev[1] if ev[0] in ("expr", "loop") else (kids(ev[1])[0] if ev[0] == "decl" and kids(ev[1]) else None)
+            if not isinstance(root, dict):
+                continue
+            for z in ir.walk(root):
+                oc = obj_call(z)
+                if oc and oc[1] not in (LIST_PURE if oc[0] == "list_" else MAP_PURE + ("find", "at")):
+                    return False
+                if (is_sibling_call(z) and not z["callee"].get("const")) or z["k"] == "LambdaExpr":
+                    return False
+        return True
+
+    def fill_test(n, run):
+        """truth of a test of the number of entries the cache had on entry, evaluated over the classes none / one / several
+        (atoms fill:empty, fill:single): size() > 1, !empty(), size() == 0, ...; None if n is no such test or its value is
+        not the same for all `several`"""
+        op = c = None
+        kind = cache_fill(n)
+        if kind is not None:
+            op, c = ("!=", 0) if kind == "size" else ("==", 0)
+        else:
+            b = match.binop(n, ("==", "!=", ">", "<", ">=", "<="))
+            if b and strip_casts(n)["k"] in ("BinaryOperator", "UnaryOperator"):
+                for x, y, o in ((b[1], b[2], b[0]), (b[2], b[1], {"<": ">", ">": "<", "<=": ">=", ">=": "<="}.get(b[0], b[0]))):
+                    if cache_fill(x) == "size" and const_int(y) is not None:
+                        op, c = o, const_int(y)
+                        break
+        if op is None:
+            return None
+        f = {"==": lambda s_: s_ == c, "!=": lambda s_: s_ != c, "<": lambda s_: s_ < c, ">": lambda s_: s_ > c,
+             "<=": lambda s_: s_ <= c, ">=": lambda s_: s_ >= c}[op]
+        several = {f(s_) for s_ in range(2, max(c, 2) + 3)}
+        if len(several) != 1 or not at_entry(run):
+            return None
+        if run.atom("fill:empty"):
+            return f(0)
+        if run.atom("fill:single"):
+            return f(1)
+        return several.pop()
     return atomize
 
 
@@ -664,6 +1137,8 @@ def check_lru_fn(ck, rec, fn):
         if fn.name in ("pop", "clear") and not found:
             return False
         front = lf["val"].get("already-front")
+        if front is None and found and v_full.get("fill:single"):
+            front = True        # the only entry is the front
         evs = lru_events(fn, lf)
         kinds = [e.kind for e in evs]
         # ---- effects that have no meaning on this path
@@ -682,6 +1157,10 @@ def check_lru_fn(ck, rec, fn):
         if fn.name != "pop" and le != me:
             violation(lf, "LRU-COUPLED", "%s:erase:%s" % (fn.name, found),
                       "on the path found=%s the recency list erases %d node(s) but the index map erases %d entry(ies)" % (found, le, me))
+            bad = True
+        if fn.name in ("erase", "erase_if_exists") and found and le == 0 and me == 0 and "throw" not in kinds:
+            # closed world: every operation on the list / the map on this path was recognised, none removes anything
+            violation(lf, "LRU-COUPLED", "%s:none:%s" % (fn.name, found), "on the path found=True %s removes neither the list node nor the index entry" % fn.name)
             bad = True
         lp = sum(1 for k in kinds if k in ("list.push_front", "list.push_back"))
         mi = kinds.count("map.insert")
@@ -774,8 +1253,16 @@ def check_lru_fn(ck, rec, fn):
                 bad = True
         return bad
 
+    def consistent(v):
+        """fill:empty / fill:single: the cache had no / exactly one entry on entry"""
+        if v.get("fill:empty") and (v.get("fill:single") or v["found"]):
+            return False
+        if v["found"] and v.get("fill:single") and v.get("already-front") is False:
+            return False        # the only entry is the front
+        return True
+
     pending = None
-    for v_full, lf in dtable.table(leaves, None, atoms):
+    for v_full, lf in dtable.table(leaves, consistent, atoms):
         try:
             bad = judge(v_full, lf) or bad
         except dtable.Undecidable as e:      # the other paths are still judged: what they violate is reported
@@ -791,11 +1278,45 @@ def check_lru_fn(ck, rec, fn):
             ck.ok("LRU-PUT-STORES", tag, "every normal path stores the given %s" % ("key and value" if is_map else "key"))
 
 
-def check_lru(ck, tu):
+MOVERS = ("move", "forward", "move_if_noexcept")
+
+
+def check_lru_moved(ck, rec, fn, raw_tu):
+    """LRU-COUPLED, moved-from keys: decided on the function as written (raw_tu() is the translation unit without the
+    normaliser's substitution of locals - a value copied BEFORE a move is not the moved-from object, and std::move of a
+    reference to const copies)"""
+    tag = "%s::%s" % (rec.split("::")[-1], fn.name)
+    cands = [f for f in raw_tu().find(record=rec, name=fn.name) if len(f.params) == len(fn.params) and f.body is not None]
+    if len(cands) != 1:
+        raise dtable.Undecidable("%s: %s is not found in the translation unit as written" % (fn.loc, tag))
+    raw = cands[0]
+    inlined = with_siblings_inlined(raw)
+    if not any("callee" in y and y["callee"]["name"] in MOVERS for y in ir.walk(inlined)):
+        return
+    body = ret_as_if(inlined, only=lambda e: conditional_state_use(raw, e) is not None)
+    leaves = dtable.explore(body, lru_atomize(raw), raw)
+    bad = False
+    for lf in leaves:
+        for what, rd, rl, obj, ml in moved_from_reads(raw, lf):
+            aux = [k for k in lf["val"] if k.startswith("aux:")]
+            if aux:
+                raise dtable.Undecidable("%s: %s reads %s after %s was moved from - but only under the condition %s, which is not understood"
+                                         % (raw.loc, what, rd, obj, dtable.fmt_val({k: lf["val"][k] for k in aux})))
+            ck.violation("LRU-COUPLED", raw.qname, "%s:moved-from:%s" % (raw.name, what),
+                         "%s(): the argument of %s is read from %s (line %s) after %s was moved from (std::move at line %s): for a key type whose move "
+                         "empties its source the operation works on an emptied key, the recency list and the index no longer change together"
+                         % (raw.name, what, rd, rl, obj, ml), raw.loc)
+            bad = True
+    if not bad:
+        ck.ok("LRU-COUPLED", tag + " moved-from", "%d paths: no list / index operation takes its key from a moved-from object" % len(leaves))
+
+
+def check_lru(ck, tu, raw_tu):
     for rec in (LS, LM):
         for fn in tu.find(record=rec):
             if fn.name in MUTATORS:
                 ck.guarded(lambda rec=rec, fn=fn: check_lru_fn(ck, rec, fn))
+                ck.guarded(lambda rec=rec, fn=fn: check_lru_moved(ck, rec, fn, raw_tu))
 
 
 # ------------------------------------------------------------------ SplayTree
@@ -1164,10 +1685,37 @@ def splay_calls(ck, fn, tag, x, g):
                 if hidden and g.path_avoiding(pc, asg_pos + hidden) is None:
                     raise dtable.Undecidable("%s: SPLAY-WRITEBACK: %s is handed out by reference after splay(); whether the new root is stored is not understood"
                                              % (fn.nloc(x), root))
+                # `if (result != root) root = result;`: on the edge on which the comparison says `equal` the root already is the
+                # new root.  Understood when the comparison is the whole condition of an if, the other operand is the
+                # never-reassigned local that holds the splay() result, and the root is not written before the test
+                harmless, unknown_cmp = [], None
+                holder = dest.get("did") if dest is not None and dest.get("k") == "VarDecl" and single_init(fn, dest.get("did")) is not None else None
                 for y in ir.walk(fn.body):
                     c = match.binop(y, ("==", "!="))
-                    if c and ((is_root(c[1], fn) == root and not is_null(c[2])) or (is_root(c[2], fn) == root and not is_null(c[1]))):
-                        raise dtable.Undecidable("%s: SPLAY-WRITEBACK: the write-back of %s depends on a comparison with the old root" % (fn.nloc(y), root))
+                    if not (c and ((is_root(c[1], fn) == root and not is_null(c[2])) or (is_root(c[2], fn) == root and not is_null(c[1])))):
+                        continue
+                    other = c[2] if is_root(c[1], fn) == root else c[1]
+                    child, par = y, fn.parent(y)
+                    while par is not None and (par["k"] in CASTS or par["k"] in WRAP):
+                        child, par = par, fn.parent(par)
+                    edge = None
+                    if holder is not None and ref_of(other) == holder and par is not None and par["k"] == "IfStmt" and kids(par)[0] is child \
+                            and "init" not in par and "condvar" not in par:
+                        py = g.pos_deep(y)
+                        blk = [b for b, bl in g.blocks.items() if bl.get("term") == par["id"] and len(bl.get("succ", [])) == 2
+                               and None not in bl["succ"]]
+                        if py and len(blk) == 1 and g.reachable(pc, py) and not any(g.reachable(pc, q) and g.reachable(q, py) for q in asg_pos + hidden):
+                            succ = g.blocks[blk[0]]["succ"]
+                            edge = (blk[0], succ[0] if c[0] == "==" else succ[1])
+                    if edge is None:
+                        unknown_cmp = unknown_cmp or y
+                    else:
+                        harmless.append(edge)
+                if harmless and g.path_avoiding(pc, asg_pos, blocked_edges=harmless) is None:
+                    ok_wb = True
+                elif unknown_cmp is not None:
+                    raise dtable.Undecidable("%s: SPLAY-WRITEBACK: the write-back of %s depends on a comparison with the old root" % (fn.nloc(unknown_cmp), root))
+                # else: a path to the exit without an assignment to the root that does not pass an edge on which result == root
         if ok_wb:
             ck.ok("SPLAY-WRITEBACK", "%s @%s" % (tag, fn.nloc(x)), "result of splay(%s) is stored back into %s on every path" % (root, root))
         else:
@@ -1610,91 +2158,245 @@ def single_init(fn, did):
 
 
 def check_orient(ck, fn):
+    """SPLAY-ORIENT for the top-down splay loop, by evaluating one round of the loop on symbolic nodes: the nodes below the `t` of
+    the start of the round are named by their access path (t0, t0.left, t0.left.left, ...); locals that copy such a node carry
+    its name.  Each path through the loop body (decision table over the comparisons cmp(k, N->key) / cmp(N->key, k) and the
+    other conditions as opaque atoms) yields the comparisons consulted and the moves of t.  Evidence for a violation is a path
+    on which t steps from a node N into the child on the side the comparison at N excludes, or on which k is compared with a
+    node on that side.  A move or a comparison whose node is not understood: Undecidable.
+    Stores through nodes that are not below t0 (the spine pointers l / r carried over from earlier rounds) are taken not to
+    alias the links read in this round."""
     k, t = fn.params[0]["did"], fn.params[1]["did"]
-    loop = [l for l in match.loops_in(fn.body)]
-    ck.require(loop, "%s: splay loop not found" % fn.loc)
-    body = match.loop_parts(loop[0])[3]
-    top = [s for s in kids(body) if s["k"] == "IfStmt"]
-    ck.require(top, "%s: splay decision not found" % fn.loc)
-    bad = False
-    n = 0
 
-    def resolved(e, depth=0):
-        """e with never-reassigned locals replaced by what they were initialised with (for reading off key / left / right)"""
-        e0 = strip_casts(e)
-        d = ref_of(e0)
-        if d is not None and d not in (k, t) and depth < 4:
-            init = single_init(fn, d)
-            if init is not None:
-                return resolved(init, depth + 1)
-        return e0
+    def und(what, node=None):
+        raise dtable.Undecidable("%s: SPLAY-ORIENT: %s" % (fn.nloc(node) if node is not None else fn.loc, what))
 
-    def chain_fields(e, depth=0):
-        """the left/right member names along the access path of e, locals resolved; None if the path is not understood"""
-        e0 = resolved(e)
-        if e0 is None or depth > 6:
+    def has_cmp(root):
+        return any("callee" in y and match.functor_call(y) and any(ref_of(a) == k for a in match.functor_call(y)[1]) for y in ir.walk(root))
+    loops = [l for l in match.loops_in(fn.body) if has_cmp(l)]
+    if len(loops) != 1:
+        und("expected one loop that compares the key with tree nodes, found %d" % len(loops))
+    init, cond, inc, body = match.loop_parts(loops[0])
+    def writes_t(root):
+        for y in ir.walk(root):
+            w = match.unop(y, ("++", "--")) or (match.binop(y, ASSIGN_OPS) if y["k"] in ("BinaryOperator", "CompoundAssignOperator", "CXXOperatorCallExpr") else None)
+            if w and ref_of(w[1]) == t:
+                return True
+        return False
+    for part in (init, cond, inc):
+        if part is not None and (has_cmp(part) or writes_t(part)):
+            und("the loop header compares keys / moves the search position", part)
+
+    def fmt(q):
+        return ".".join(("t",) + q)
+
+    class State:
+        def __init__(self):
+            self.tpath, self.nodes, self.keys, self.dirty, self.moves, self.unknown = (), {}, {}, set(), [], None
+
+    def nodeval(s, e):
+        """name of the node a pointer expression designates, None if not understood"""
+        e = peel(e)
+        if e is None:
             return None
-        if e0["k"] == "DeclRefExpr":
-            return [] if e0["ref"]["id"] == t else None
-        if e0["k"] == "MemberExpr" and kids(e0):
-            inner = chain_fields(kids(e0)[0], depth + 1)
-            if inner is None:
+        d = ref_of(e)
+        if d is not None:
+            return s.tpath if d == t else s.nodes.get(d)
+        if e["k"] == "BinaryOperator" and e.get("op") == "=":
+            return nodeval(s, kids(e)[1])
+        f = match.field_of(e)
+        if f and f[1] in ("left", "right") and e.get("arrow"):
+            b = nodeval(s, f[0])
+            if b is None:
                 return None
-            return inner + ([e0["member"]] if e0["member"] in ("left", "right") else [])
+            if (b, f[1]) in s.dirty:
+                s.unknown = s.unknown or ("the link %s.%s is read after it was overwritten in the same round" % (fmt(b), f[1]), e)
+                return None
+            return b + (f[1],)
         return None
 
-    def side_of(cond):
-        fc = match.functor_call(cond)
-        if not fc or len(fc[1]) != 2:
+    def assign(s, lhs, rhs, node, conditional=False):
+        val = nodeval(s, rhs)
+        lhs0 = peel(lhs)
+        if lhs0 is None:
+            return
+        if lhs0["k"] == "ConditionalOperator":
+            for c in kids(lhs0)[1:]:
+                assign(s, c, rhs, node, True)
+            return
+        d = ref_of(lhs0)
+        if d is not None:
+            if d == t:
+                if conditional or val is None or s.tpath is None:
+                    s.unknown = s.unknown or ("where `%s` takes the search position is not understood" % dtable.describe(node), node)
+                    s.tpath = None
+                else:
+                    s.moves.append((s.tpath, val, node))
+                    s.tpath = val
+            elif d == k:
+                s.unknown = s.unknown or ("the key is assigned", node)
+            elif val is not None and not conditional:
+                s.nodes[d] = val
+            else:
+                s.nodes.pop(d, None)
+            s.keys.pop(d, None)
+            return
+        f = match.field_of(lhs0)
+        if f and f[1] in ("left", "right"):
+            b = nodeval(s, f[0])
+            if b is not None:
+                s.dirty.add((b, f[1]))
+            return
+        if f and f[1] == "key":
+            s.unknown = s.unknown or ("a key is overwritten", node)
+
+    def effects(s, e):
+        """assignments and by-reference uses inside one executed expression, operands first"""
+        for y in post_order(e):
+            if y["k"] == "BinaryOperator" and y.get("op") == "=":
+                assign(s, kids(y)[0], kids(y)[1], y)
+                continue
+            w = match.unop(y, ("++", "--")) or (match.binop(y, ASSIGN_OPS) if y["k"] in ("CompoundAssignOperator", "CXXOperatorCallExpr") else None)
+            if w and ref_of(w[1]) in (t, k):
+                s.unknown = s.unknown or ("`%s` is not understood" % dtable.describe(y), y)
+                s.tpath = None
+            elif w and ref_of(w[1]) is not None:
+                s.nodes.pop(ref_of(w[1]), None)
+            if "callee" in y and match.functor_call(y) is None and y["k"] not in ("CXXConstructExpr", "CXXTemporaryObjectExpr"):
+                for a in kids(y)[(1 if y.get("member_call") else 0):]:
+                    a0 = a
+                    if a0 is not None and a0["k"] == "UnaryOperator" and a0.get("op") == "&" and kids(a0):
+                        a0 = kids(a0)[0]
+                    if a0 is not None and a0["k"] == "DeclRefExpr":       # handed over by reference / by address
+                        if a0["ref"]["id"] == t:
+                            s.unknown = s.unknown or ("t is handed to %s()" % y["callee"]["name"], y)
+                            s.tpath = None
+                        s.nodes.pop(a0["ref"]["id"], None)
+
+    def replay(run):
+        s = State()
+        for ev in run.events:
+            if ev[0] == "decl":
+                v = ev[1]
+                init = kids(v)[0] if kids(v) else None
+                if init is None:
+                    continue
+                effects(s, init)
+                ty = (v.get("ty") or "").replace(" ", "")
+                if ty.endswith("&") and "*" in ty:
+                    if any(y["k"] == "DeclRefExpr" and (y["ref"]["id"] == t or y["ref"]["id"] in s.nodes) for y in ir.walk(init)):
+                        s.unknown = s.unknown or ("a reference to a pointer (%s) is not followed" % v.get("name"), v)
+                    continue
+                val = nodeval(s, init)
+                if val is not None:
+                    s.nodes[v["did"]] = val
+                fk = match.field_of(peel(init))
+                if fk and fk[1] == "key" and nodeval(s, fk[0]) is not None:
+                    s.keys[v["did"]] = nodeval(s, fk[0])
+            elif ev[0] == "expr":
+                effects(s, ev[1])
+            elif ev[0] == "loop":
+                for y in ir.walk(ev[1]):
+                    w = match.unop(y, ("++", "--")) or (match.binop(y, ASSIGN_OPS) if y["k"] in ("BinaryOperator", "CompoundAssignOperator", "CXXOperatorCallExpr") else None)
+                    if w and ref_of(w[1]) == t:
+                        s.unknown = s.unknown or ("t is assigned inside a nested loop", y)
+                        s.tpath = None
+                    elif w and ref_of(w[1]) is not None:
+                        s.nodes.pop(ref_of(w[1]), None)
+                    elif w and match.field_of(w[1]) and match.field_of(w[1])[1] in ("left", "right"):
+                        s.unknown = s.unknown or ("links are written inside a nested loop", y)
+                if has_cmp(ev[1]):
+                    s.unknown = s.unknown or ("keys are compared inside a nested loop", ev[1])
+        return s
+
+    def special(n, run):
+        fc = match.functor_call(n)
+        if not fc or len(fc[1]) != 2 or not any(ref_of(a) == k for a in fc[1]):
             return None
-        a, b = fc[1]
+        s = replay(run)
 
         def role(e):
-            e = resolved(e)
+            e = peel(e)
             if ref_of(e) == k:
                 return "k"
+            if ref_of(e) is not None and ref_of(e) in s.keys:
+                return s.keys[ref_of(e)]
             f = match.field_of(e)
             if f and f[1] == "key":
-                return "node"
+                return nodeval(s, f[0])
             return None
-        r = (role(a), role(b))
-        return "left" if r == ("k", "node") else "right" if r == ("node", "k") else None
-    node = top[0]
-    while node is not None and node["k"] == "IfStmt":
-        side = side_of(kids(node)[0])
-        if side is None:
-            break
-        n += 1
-        then = kids(node)[1]
-        other = "right" if side == "left" else "left"
-        where = "%s: SPLAY-ORIENT: " % fn.nloc(node)
-        descents = [match.binop(y, ("=",)) for y in kids(then) if y and match.binop(y, ("=",)) and ref_of(match.binop(y, ("=",))[1]) == t]
-        if not descents:
-            raise dtable.Undecidable(where + "where the search continues on the %s side is not found" % side)
-        f = match.field_of(resolved(descents[-1][2]))
-        if not f or f[1] not in ("left", "right"):
-            raise dtable.Undecidable(where + "the step `%s` is not a descent into a child" % dtable.describe(descents[-1][2]))
-        wrong = f[1] == other
-        # zig-zig test compares with the child on the same side
-        inner = [y for y in kids(then) if y and y["k"] == "IfStmt" and match.functor_call(kids(y)[0])]
-        for y in inner:
-            fc = match.functor_call(kids(y)[0])
-            s2 = side_of(kids(y)[0])
-            names = None
-            for a in fc[1]:
-                fa = match.field_of(resolved(a))
-                if fa and fa[1] == "key":
-                    names = chain_fields(fa[0])
-            if s2 is None or names is None or len(names) != 1:
-                raise dtable.Undecidable(where + "the zig-zig comparison %s is not understood" % dtable.describe(kids(y)[0]))
-            if s2 != side or names != [side]:
-                wrong = True
-        if wrong:
-            ck.violation("SPLAY-ORIENT", fn.qname, "splay:" + side,
-                         "when the key is %s than the node the search must continue into the %s subtree" % ("smaller" if side == "left" else "larger", side), fn.nloc(node))
-            bad = True
-        node = kids(node)[2]
-    ck.require(n == 2, "%s: expected two oriented comparisons in splay, found %d" % (fn.loc, n))
+        a, b = role(fc[1][0]), role(fc[1][1])
+        if s.unknown is not None:
+            und(s.unknown[0], s.unknown[1])
+        if a == "k" and isinstance(b, tuple):
+            return ("k<" + fmt(b), False)
+        if b == "k" and isinstance(a, tuple):
+            return (fmt(a) + "<k", False)
+        und("the node the key is compared with in %s is not understood" % dtable.describe(strip_casts(n)), n)
+    generic = opaque_atomize(special)
+
+    def atomize(n, run):
+        r = generic(n, run)
+        if isinstance(r, tuple) and r[0].startswith("c:"):
+            return (r[0] + "@%d" % len(run.events), r[1])      # the same test after a change of the links is another condition
+        return r
+    leaves = dtable.explore(body, atomize, fn)
+    bad = {}
+    judged = {"left": 0, "right": 0}
+    seen_top = set()
+    pending = None
+
+    def judge(lf):
+        s = replay(lf["run"])
+        lt, gt = {}, {}
+        for key, val in lf["val"].items():
+            if key.startswith("k<t"):
+                lt[tuple(key[2:].split(".")[1:])] = val
+            elif key.endswith("<k") and key.startswith("t"):
+                gt[tuple(key[:-2].split(".")[1:])] = val
+        if any(lt.get(q) and gt.get(q) for q in lt):
+            return              # not a strict order
+        if () in lt:
+            seen_top.add("k<t")
+        if () in gt:
+            seen_top.add("t<k")
+        if s.unknown is not None and (s.moves or lt or gt or s.tpath is None):
+            und(s.unknown[0], s.unknown[1])
+
+        def decision(q):
+            return "left" if lt.get(q) is True else "right" if gt.get(q) is True else None
+
+        def step(parent, side, node, what):
+            d = decision(parent)
+            if d is None:
+                und("%s %s.%s on the path %s, on which no comparison of the key with %s says on which side the key lies"
+                    % (what, fmt(parent), side, dtable.fmt_val(lf["val"]) or "-", fmt(parent)), node)
+            if d != side:
+                bad.setdefault(d, (node, "%s %s.%s (path %s)" % (what, fmt(parent), side, dtable.fmt_val(lf["val"]))))
+            else:
+                judged[d] += 1
+        for q in sorted(set(lt) | set(gt), key=len):
+            for i in range(len(q)):
+                step(q[:i], q[i], None, "the key is compared with")
+        for p_, q, node in s.moves:
+            if q[:len(p_)] != p_:
+                und("the search position moves from %s to %s, which is not below it" % (fmt(p_), fmt(q)), node)
+            for i in range(len(p_), len(q)):
+                step(q[:i], q[i], node, "the search continues at")
+    for lf in leaves:
+        try:
+            judge(lf)
+        except dtable.Undecidable as e:     # the other paths are still judged: what they violate is reported
+            pending = pending or e
+    if pending is not None and not bad:
+        raise pending
+    if not bad and (seen_top != {"k<t", "t<k"} or not (judged["left"] and judged["right"])):
+        und("the two oriented comparisons of the key with the current node and the descents they lead to were not found (%s; %d left / %d right steps judged)"
+            % (", ".join(sorted(seen_top)) or "none", judged["left"], judged["right"]))
+    for side, (node, txt) in sorted(bad.items()):
+        ck.violation("SPLAY-ORIENT", fn.qname, "splay:" + side,
+                     "when the key is %s than the node the search must continue into the %s subtree: %s"
+                     % ("smaller" if side == "left" else "larger", side, txt), fn.nloc(node) if node is not None else fn.loc)
     if not bad:
         ck.ok("SPLAY-ORIENT", "splay<%s>" % (fn.targs[0] if fn.targs else ""), "cmp(k,node) -> left, cmp(node,k) -> right, zig-zig on the same side")
 
@@ -1825,14 +2527,35 @@ def run(ck):
     ck.explanation = (
         "LRU caches: every mutator is split into its paths over the atoms `found` (lookup hit) and `already-front`; per path the effects on the "
         "recency list and the index map are extracted and must change together, use front as the most-recent end and back as the eviction end, throw "
-        "exactly on the miss path without touching the end() iterator, and put() must store the given key/value on every normal path; Set and Map "
-        "siblings must have the same effect skeleton. SplayTree: the result of every splay() on a root must be stored back on all paths, must not be "
+        "exactly on the miss path without touching the end() iterator, and put() must store the given key/value on every normal path; tests of the "
+        "number of entries are evaluated over the classes none / one / several (the list and the index hold one element per entry); the key or iterator "
+        "handed to a list / index operation must not be read from an object that was moved from earlier on the path (decided on the code as written). "
+        "SplayTree: the result of every splay() on a root must be stored back on all paths, must not be "
         "dereferenced where the tree may be null, deleting all nodes must null the owner, a child link may only be overwritten when saved or known "
-        "empty, allocation/deallocation pair with size_, and the search orientation is consistent. LRU order and BST order over histories are not decided.")
+        "empty, allocation/deallocation pair with size_, and the search orientation is consistent (one round of the splay loop is evaluated on symbolic "
+        "nodes: every comparison and every step of the search position must lie on the side the comparison at the parent node allows). LRU order and BST order over histories are not decided.")
     types = ["int"] if ck.tier == "quick" else ["int", "std::string"]
     for t in types:
         tu = ir.extract("witness/C17_lru_splay.cpp", defines=["WITNESS_K=" + t])
-        check_lru(ck, tu)
+        cache = {}
+
+        def raw_tu(tu=tu, t=t, cache=cache):
+            """the same translation unit without the normaliser's rewrites (extracted only when a rule asks for it)"""
+            if "tu" not in cache:
+                if not getattr(tu, "normalized", 0) and not getattr(tu, "inlined_away", None):
+                    cache["tu"] = tu
+                else:
+                    old = os.environ.get("VERIF_NO_NORMALIZE")
+                    os.environ["VERIF_NO_NORMALIZE"] = "1"
+                    try:
+                        cache["tu"] = ir.extract("witness/C17_lru_splay.cpp", defines=["WITNESS_K=" + t])
+                    finally:
+                        if old is None:
+                            del os.environ["VERIF_NO_NORMALIZE"]
+                        else:
+                            os.environ["VERIF_NO_NORMALIZE"] = old
+            return cache["tu"]
+        check_lru(ck, tu, raw_tu)
         ck.guarded(lambda tu=tu: check_splay(ck, tu))
     m = len(types)
     ck.floor("LRU-COUPLED", 14 * m)
